@@ -8,4 +8,5 @@ for p in $(python3 -c "import json; print(' '.join(c['property_id'] for c in jso
   echo "$p exit=$rc $(echo "$OUT" | grep -a SUMMARY | cut -c1-150)"
   [ $rc -ne 0 ] && { RC=1; echo "$OUT" | grep -a "FAILED\|MISSING\|ERROR" | cut -c1-200 | head -5; }
 done
+python3 /verif/tools/check_evidence.py || RC=1
 exit $RC
